@@ -190,6 +190,11 @@ def get_arg_defaults(task: "Task", args: tuple, kwargs: dict) -> dict:
             # User already specified this arg in kwargs.
             continue
 
+        elif param.kind == param.POSITIONAL_ONLY:
+            # A positional-only parameter cannot be passed by keyword. The function applies its
+            # own default.
+            continue
+
         elif param.default is not param.empty:
             # Default should be used.
             default_kwargs[param.name] = param.default
